@@ -3,6 +3,7 @@ import ComposeVerif.Model.Marshal
 import ComposeVerif.Model.Encode
 import ComposeVerif.Model.Decode
 import ComposeVerif.Gen.Types
+import ComposeVerif.Model.RoundTripScope
 /-! line-protocol ops for C09: `c09.marshal` / `c09.decode` (custom marshallers and decoders of package types) -/
 open Lean
 namespace CV.Ops.C09
@@ -95,6 +96,20 @@ def loadExtOp : Handler := fun args =>
   | .ok v => outJson (CV.Decode.loadExt genEnv (getStr args "type") v)
   | .error e => Json.mkObj [("bad", e)]
 
-def handlers : List (String × Handler) := [("c09.marshal", marshalOp), ("c09.decode", decodeOp), ("c09.struct", structOp), ("c09.load", loadOp), ("c09.loadext", loadExtOp)]
+/-- the composition the generic theorem speaks about: `decode (encode v)` of a typed value, plus whether the value is in
+    the theorem's scope (`plainB` of the type over the leaves of `C09.leavesNoEnvSSH`, `stableB` of the value) -/
+def rtOp : Handler := fun args =>
+  let fmt := if getStr args "fmt" == "json" then CV.Encode.Fmt.json else CV.Encode.Fmt.yaml
+  let ty := CV.TypeDesc.TyExpr.named (getStr args "type")
+  match Val.ofJson (getObj args "v") with
+  | .ok v =>
+    let back := (CV.Encode.encode genEnv fmt 60 ty v).bind (CV.Decode.decode genEnv 60 ty)
+    let inScope := CV.GenericF.plainB genEnv fmt CV.RoundTripScope.leafNames 60 ty && CV.RoundTripScope.stableB genEnv fmt 60 ty v
+    match outJson back with
+    | .obj kvs => Json.obj (kvs.insert "inscope" (Json.bool inScope))
+    | j => j
+  | .error e => Json.mkObj [("bad", e)]
+
+def handlers : List (String × Handler) := [("c09.marshal", marshalOp), ("c09.decode", decodeOp), ("c09.struct", structOp), ("c09.load", loadOp), ("c09.loadext", loadExtOp), ("c09.rt", rtOp)]
 
 end CV.Ops.C09
